@@ -76,6 +76,12 @@ def build(d):
         return cls(arr(d['labels'], d['dtype']), name=d['name'])
     if k == 'IH':
         cls = getattr(sf, d['cls'])
+        if d.get('route') == 'product':
+            # same labels, built so that sibling branches share one Index object
+            outs = list(dict.fromkeys(t[0] for t in d['labels']))
+            ins = list(dict.fromkeys(t[1] for t in d['labels']))
+            assert [(o, i) for o in outs for i in ins] == [tuple(t) for t in d['labels']]
+            return cls.from_product(outs, ins, name=d['name'])
         return cls.from_labels(d['labels'], name=d['name'])
     if k == 'S':
         cls = getattr(sf, d['cls'])
@@ -235,6 +241,9 @@ def ih_variants(tier):
     out.append(rep(base, name='n'))
     out.append(rep(base, name=('x', 'y')))
     out.append(rep(base, cls='IndexHierarchyGO'))
+    out.append(rep(base, route='product'))
+    out.append(rep(base, route='product', name='n'))
+    out.append(rep(base, labels=(('b', 1), ('b', 2), ('a', 1), ('a', 2)), route='product'))
     out.append(rep(base, labels=(('a', 1.0), ('a', 2.0), ('b', 1.0), ('b', 2.0)), dtypes=('<U1', 'float64')))
     out.append(rep(base, labels=(('a', 1, 'x'), ('a', 2, 'x'), ('b', 1, 'x'), ('b', 2, 'x')), dtypes=('<U1', 'int64', '<U1')))
     return out
@@ -419,7 +428,7 @@ def run_case(case, ctx):
             exp = True if i == j else ref_equals(descs[i], descs[j], name, dtype, klass, skipna)
             ctx.outcome(f'{kind}:{r}')
             if r != exp:
-                diff = [k for k in descs[i] if descs[i][k] != descs[j].get(k)] if i != j else ['self']
+                diff = [k for k in set(descs[i]) | set(descs[j]) if descs[i].get(k) != descs[j].get(k)] if i != j else ['self']
                 ctx.violation(f'{kind}|equals-vs-reference|got={r}|differs-in={"+".join(sorted(diff))}|opts=n{int(name)}d{int(dtype)}c{int(klass)}s{int(skipna)}',
                               a=descs[i], b=descs[j], observed=r, expected=exp)
     # algebraic laws on the real matrix
